@@ -1042,6 +1042,18 @@ func (cs *c11Case) exec(o c11Op, ans *strings.Builder) (bool, int) {
 		case "msg":
 			_, err := n.apply([]byte(cs.msgs[o.b].json))
 			rejected = err != nil
+		case "sn":
+			// o.d consecutive updates with the SAME value o.b, observed once after the last one
+			for k := 0; k < o.d; k++ {
+				if n.kind == 'P' {
+					n.vn.Set(o.b)
+				} else {
+					changed, err := n.pv.ApplyMessage([]byte(strconv.Itoa(o.b)))
+					if err != nil || !changed {
+						panic("ApplyMessage refused")
+					}
+				}
+			}
 		case "sp":
 			if n.kind == 'P' {
 				n.vn.Set(o.b)
@@ -1098,6 +1110,9 @@ func (cs *c11Case) exec(o c11Op, ans *strings.Builder) (bool, int) {
 		switch o.kind {
 		case "msg":
 			cs.msgs[o.b].accept(n)
+		case "sn":
+			n.pval = o.b
+			n.sets += o.d
 		case "sp":
 			n.pval = o.b
 		case "si":
@@ -3461,6 +3476,95 @@ func c11WideHistory(c *Ctx) {
 	}
 }
 
+// ---- sn family: a dependency advancing by an exact multiple of 65536 versions between two
+// executions of its consumer (`sn p v k` = k consecutive updates of p with the same value v)
+
+func c11SnHistories(c *Ctx) {
+	r := c.Rng
+	type variant struct {
+		name string
+		ops  func(p, q, cons int, v func() int) []c11Op
+	}
+	rd := func(i int) c11Op { return c11Op{kind: "rd", a: i} }
+	sn := func(p, v, k int) c11Op { return c11Op{"sn", p, v, k} }
+	one := func(k int) variant {
+		return variant{fmt.Sprintf("k=%d", k), func(p, q, cons int, v func() int) []c11Op {
+			return []c11Op{rd(cons), sn(p, v(), k), rd(cons), rd(cons)}
+		}}
+	}
+	variants := []variant{
+		one(65536), one(65536), one(65536), one(65536), // P / Q x one / two levels, see below
+		one(65535), one(65537), one(131072), one(1), one(2),
+		{"k=65535+sp", func(p, q, cons int, v func() int) []c11Op {
+			return []c11Op{rd(cons), sn(p, v(), 65535), {kind: "sp", a: p, b: v()}, rd(cons), rd(cons)}
+		}},
+		{"k=65536.two-sources", func(p, q, cons int, v func() int) []c11Op {
+			return []c11Op{rd(cons), sn(p, v(), 65536), sn(q, v(), 65536), rd(cons), rd(cons)}
+		}},
+		{"k=65536.twice", func(p, q, cons int, v func() int) []c11Op {
+			return []c11Op{rd(cons), sn(p, v(), 65536), rd(cons), sn(p, v(), 65536), rd(cons), sn(p, v(), 196608), rd(cons)}
+		}},
+	}
+	for vi, va := range variants {
+		// graph: 0 = p, 1 = q, 2 = near (over p, q), 3 = a second node fed by p, 4 = far (over near)
+		kind := byte('P')
+		if vi%2 == 1 {
+			kind = 'Q'
+		}
+		if vi >= 4 && r.Intn(2) == 0 {
+			kind = 'P' + 'Q' - kind
+		}
+		deep := (vi/2)%2 == 1
+		if vi >= 4 {
+			deep = r.Intn(2) == 0
+		}
+		qk := byte('P')
+		if r.Intn(2) == 0 {
+			qk = 'Q'
+		}
+		desc := []c11GNode{{kind: kind, v: 1 + r.Intn(99)}, {kind: qk, v: 1 + r.Intn(99)},
+			{kind: 'S', v: 1 + r.Intn(100000), sc: []int{0, 1}},
+			{kind: 'S', v: 1 + r.Intn(100000), sc: []int{0}},
+			{kind: 'S', v: 1 + r.Intn(100000), sc: []int{2}, ar: [][]int{{1}}}}
+		cons := 2
+		if deep {
+			cons = 4
+		}
+		cs, header := c11BuildGraph(c, false, desc)
+		var ans strings.Builder
+		var ops []string
+		for _, o := range va.ops(0, 1, cons, cs.freshVal) {
+			ok, _ := cs.exec(o, &ans)
+			ops = append(ops, o.String())
+			if !ok {
+				c.Note("sn.op.PANIC")
+			}
+			if o.kind == "sn" {
+				c.Note(fmt.Sprintf("sn.k=%d", o.d))
+			}
+			if o.kind == "rd" && ok {
+				if want := cs.skipSpec(o.a); cs.lastV1 != want || cs.lastV2 != want {
+					c.Note("sn.FRESHNESS-FAILED")
+				}
+			}
+		}
+		// and a read of the other consumer of p, and of everything, at the end
+		for _, i := range []int{3, 4} {
+			cs.exec(rd(i), &ans)
+			ops = append(ops, rd(i).String())
+		}
+		c.Note("sn.variant." + va.name)
+		c.Note(fmt.Sprintf("sn.source-kind-%c", kind))
+		if deep {
+			c.Note("sn.consumer-two-levels-up")
+		} else {
+			c.Note("sn.consumer-one-level-up")
+		}
+		cs.errNotes()
+		c11EmitOrdinary(c, header, ops, &ans)
+	}
+}
+
 const c11SkipRandomN = 300
 const c11SkipRandom2N = 200
 
@@ -3483,6 +3587,8 @@ func runC11(c *Ctx) {
 	for k := 0; k < nm; k++ {
 		c11MsgHistory(c)
 	}
+	// sn family: 12 fixed-shape histories
+	c11SnHistories(c)
 	// wide family: ~150 histories in the quick tier
 	nw := c.N / 40
 	if nw < 20 {
